@@ -64,9 +64,32 @@ def draw_values(tensors, seed: int, profile: str):
             im = rng.normal(size=t.shape) * 10.0 ** (-k)
             if "clamp" in kind:
                 re = np.abs(re)  # keep clamp(t) = t > 0 (tiny but positive) instead of an exact zero
+        elif profile == "zeros":
+            # ordinary values with a fifth of the entries EXACTLY zero (square(0) = 0, a zero embedding entry or
+            # weight: -inf in a log-space semiring); clamp-parameterised tensors keep away from their kink
+            re = rng.normal(size=t.shape)
+            im = rng.normal(size=t.shape)
+            if "clamp" not in str(vs.get("k", "")):
+                z = rng.random(size=t.shape) < 0.2
+                re = np.where(z, 0.0, re)
+                im = np.where(z, 0.0, im)
         else:
             re = rng.normal(size=t.shape)
             im = rng.normal(size=t.shape)
+        if vs.get("role") == "nonneg0":
+            re = np.abs(re)
+            if profile != "tiny":
+                re = np.where(rng.random(size=t.shape) < 0.2, 0.0, re)
+            im = np.zeros_like(re)
+        if vs.get("role") == "simplex0":
+            # normalised rows along the last axis with exact zeros (at least one entry per row is positive)
+            n = t.shape[-1]
+            w = rng.integers(0, 4, size=t.shape).astype(np.float64)
+            hot = rng.integers(0, n, size=t.shape[:-1])
+            np.put_along_axis(w, hot[..., None], np.maximum(np.take_along_axis(w, hot[..., None], -1), 1.0), -1)
+            re = w / w.sum(axis=-1, keepdims=True)
+            im = np.zeros_like(re)
+            scale = 1.0
         if vs.get("role") == "bounded":  # e.g. Gaussian means: keep quadrature-friendly
             re = np.clip(re, -3, 3)
             im = np.clip(im, -3, 3)
